@@ -4,7 +4,8 @@ import vlib, e2e, cf_graph
 
 THEOREMS = ["C11_dispatch_finds_target", "C11_dispatch_no_spurious_target", "C11_phi_sequential_equals_parallel", "C11_phi_swap_refuted",
             "C11_trash_guard_never_true", "C11_pass_preserves_runs", "C11_passes_compose", "C11_flatten_equivalent", "C11_passes_checked_instance",
-            "C11_passes_example", "C11_flatten_zero_key_refuted", "C11_trash_true_guard_refuted"]
+            "C11_passes_example", "C11_flatten_zero_key_refuted", "C11_trash_true_guard_refuted", "C11_xor_hardening_consistent",
+            "C11_xor_hardening_keys_ok", "C11_delegate_hardening_consistent"]
 
 DIRECTIVES = {
     "flatten1": "flatten_passes=1",
